@@ -16,7 +16,7 @@ RULE = ("the 14 existing Cvt*/Normalize* commands x arrays with >=2 distinct val
         "thresholds asc/desc/inside/outside the data range, defaults with both directions, category tables hitting/missing the data, "
         "curves with 1-6 control points in random order, z-score vectors, IgnoreZeros both ways; distinct by (command, dtype, rank, "
         "mask class, parameter-shape class)")
-REQUIRED_COUNTERS = ["ref_postconditions", "variant_checks", "inverse_checks", "monotone_checks"]
+REQUIRED_COUNTERS = ["ref_postconditions", "variant_checks", "inverse_checks", "monotone_checks", "numpy_scalar_parameter_cases"]
 ASSUMPTIONS = ["NormalizeZScore default thresholds, StartVal >= EndVal, equal thresholds, duplicate raw values, constant arrays and "
                "non-increasing mean-to-mid control points are don't-care (documentation silent or inconsistent)",
                "population standard deviation (ddof=0)", "float32 inputs compared with 2e-5 relative tolerance"]
@@ -79,16 +79,38 @@ def _pclass(cmd, p):
 
 
 def _tol(case):
-    return 2e-5 if any(s["dtype"] == "float32" for s in case["inputs"]) else 1e-9
+    return 2e-5 if case.get("_single_precision_params") or any(s["dtype"] == "float32" for s in case["inputs"]) else 1e-9
+
+
+def _as_numpy(params, how):
+    """The same numbers handed over as NumPy scalars (where that is exact): what a caller of the programming interface has
+    when the thresholds come out of an array."""
+    conv = getattr(numpy, how)
+
+    def one(v):
+        if isinstance(v, bool) or not isinstance(v, (int, float)):
+            return v
+        if how.startswith("int"):
+            return conv(v) if isinstance(v, int) and abs(v) < 2 ** 31 else v
+        return conv(v) if float(conv(v)) == float(v) and isinstance(v, float) else v
+    return {k: ([one(x) for x in v] if isinstance(v, list) else one(v)) for k, v in params.items()}
 
 
 def run_case(ctx, case):
     cmd, params = case["cmd"], case["params"]
     fuzzy_in = cmd in arr.FUZZY_INPUT
     inputs = [arr.build(s) for s in case["inputs"]]
+    call_params = params
+    how = [None] * 9 + ["float32", "float64", "int64", "float32"]
+    how = how[(len(case["inputs"][0]["data"]) * 7 + len(params)) % len(how)]
+    if how:
+        call_params = _as_numpy(params, how)
+        ctx.count("numpy_scalar_parameter_cases")
+        if how == "float32":
+            case = dict(case, _single_precision_params=True)     # NumPy then computes with them in single precision
     dt = case["inputs"][0]["dtype"]
     ctx.feature((cmd, dt, len(case["inputs"][0]["shape"]), bool(case["inputs"][0]["mask"] and any(case["inputs"][0]["mask"])), _pclass(cmd, params)))
-    out, prog = arr.run_cmd(cmd, inputs, params, fuzzy_inputs=fuzzy_in)
+    out, prog = arr.run_cmd(cmd, inputs, call_params, fuzzy_inputs=fuzzy_in)
     fcols = [arr.frac_cells(a) for a in inputs]
     dclass = "int" if dt.startswith("int") else "float"
     try:
